@@ -16,6 +16,6 @@ for d in sorted(glob.glob(f"/verif/seeded/{pid}-*/meta.json")):
         pass
 PY
 )
-  /venv/bin/python /tmp/seed_prompt.py $pid /tmp/wt-$pid /tmp/seedout-$pid "$extra" > /tmp/seedprompt-$pid.txt
+  /venv/bin/python /verif/harness/seed_prompt.py $pid /tmp/wt-$pid /tmp/seedout-$pid "$extra" > /tmp/seedprompt-$pid.txt
 done
 git -C /repo worktree list | wc -l
